@@ -42,8 +42,4 @@ theorem nObjectives_closures (sbs : Bool) (T : Nat) (val : Val) (goals pathGoals
   rw [vertcat_eq_fns, vertcat_eq_fns]
   rfl
 
-/-- one entry of a linearised goal's objective vector: `w · lin / n_active` -/
-theorem pow_one_entry (w x d : Rat) : w * x ^ 1 / d = w * x / d := by
-  rw [pow_one]
-
 end RtcVerif.C03
